@@ -30,7 +30,11 @@ Theorem C11_once_in_order : forall i, wf i -> forall k o so j pk,
 Proof. exact once_in_order. Qed.
 Print Assumptions C11_once_in_order.
 
-(* what the transformed status call is: every field of the caller's call, except ... *)
+(* what the transformed status call is: every field of the caller's call, except ...
+   A supplied timestamp k is ANY tsobj - timezone-aware in whatever zone, naive, or no datetime at all
+   (falsy placeholders included): it is handed on as it is; only TsNone (left out / None) is filled.
+   A route is ANY string by segments, the empty string (one empty segment), '/', 'ab/' included: only
+   None becomes the bare routing code, everything else gets code + '/' in front. *)
 Theorem C11_only_own_field : forall now p e,
   let d := expect_event now p e in
   v_id d = v_id e /\ v_status d = v_status e /\ v_runnable d = v_runnable e /\ v_file d = v_file e
@@ -119,7 +123,7 @@ Example C11_example :
                             Tagger [0] [2] [Sink; Tagger [4] [0] [Sink]; FailFast];
                             Stamp (ToQueue 5 Sink)];
               caller := [[1; 2]];
-              ops := [OStart; OStatus (e _ (TLoc 0) 5 TsNone); OMutate 0 [3]; OStatus (e _ (TLoc 0) 4 (TsGiven 7)); OStop;
+              ops := [OStart; OStatus (e _ (TLoc 0) 5 TsNone); OMutate 0 [3]; OStatus (e _ (TLoc 0) 4 (TsGiven (TNaive 7))); OStop;
                       OStop; OStart; OStop] |} in
   wf i
   /\ map s_new (o_steps (model i))
@@ -127,11 +131,26 @@ Example C11_example :
          [[ESt (e _ (Some [1; 2]) 5 TsNone)]; [ESt (e _ (Some [0; 1]) 5 TsNone)]; [ESt (e _ (Some [1; 4]) 5 TsNone)]; [EFired];
           [ESt (Evt (Some 1) (Some 5) (Some [1; 2]) true None None false None (Some [5; 3]) TsFilled)]];
          [[]; []; []; []; []];
-         [[ESt (e _ (Some [3]) 4 (TsGiven 7))]; [ESt (e _ (Some [0; 3]) 4 (TsGiven 7))]; [ESt (e _ (Some [3; 4]) 4 (TsGiven 7))]; [];
-          [ESt (Evt (Some 1) (Some 4) (Some [3]) true None None false None (Some [5; 3]) (TsGiven 7))]];
+         [[ESt (e _ (Some [3]) 4 (TsGiven (TNaive 7)))]; [ESt (e _ (Some [0; 3]) 4 (TsGiven (TNaive 7)))]; [ESt (e _ (Some [3; 4]) 4 (TsGiven (TNaive 7)))]; [];
+          [ESt (Evt (Some 1) (Some 4) (Some [3]) true None None false None (Some [5; 3]) (TsGiven (TNaive 7)))]];
          [[EStop]; [EStop]; [EStop]; []; [EStop]];
          [[EStop]; [EStop]; [EStop]; []; [EStop]];
          [[EStart]; [EStart]; [EStart]; []; [EStart]];
          [[EStop]; [EStop]; [EStop]; []; [EStop]] ]
   /\ map s_caller (o_steps (model i)) = [[[1; 2]]; [[1; 2]]; [[3]]; [[3]]; [[3]]; [[3]]; [[3]]; [[3]]].
+Proof. vm_compute. repeat split. Qed.
+
+(* non-vacuity on the awkward values: the empty route code '' (segment 7 is the empty string), a naive
+   timestamp, a falsy non-datetime timestamp and a missing one, through a timestamping decorator and
+   two queues: '' becomes '5/' and then '0/5/', None becomes '5' and '0/5'; the naive and the
+   placeholder timestamps arrive as they were, only the missing one is filled *)
+Example C11_example_values :
+  let e := fun r ts => @Evt tagref (Some 3) (Some 4) TNone true None None false None r ts in
+  let i := {| tree := Stamp (ToQueue 5 (ToQueue 0 Sink)); caller := [];
+              ops := [OStatus (e (Some [7]) (TsGiven (TNaive 3))); OStatus (e None (TsGiven (TOther 1)));
+                      OStatus (e (Some [7; 7]) TsNone)] |} in
+  let o := fun r ts => [[ESt (@Evt otags (Some 3) (Some 4) None true None None false None r ts)]] in
+  wf i
+  /\ map s_new (o_steps (model i))
+     = [ o (Some [0; 5; 7]) (TsGiven (TNaive 3)); o (Some [0; 5]) (TsGiven (TOther 1)); o (Some [0; 5; 7; 7]) TsFilled ].
 Proof. vm_compute. repeat split. Qed.
